@@ -348,7 +348,7 @@ class Types:
         if f.parent is not None:
             for k, v in self.env(f.parent).items():
                 env.setdefault(k, v)
-        for _ in range(2):  # two passes so that later uses see earlier bindings
+        for _ in range(3):  # passes so that later uses see (refined) earlier bindings
             for n in iter_own(f.node):
                 if isinstance(n, ast.Assign):
                     for t in n.targets:
@@ -393,11 +393,19 @@ class Types:
             return it[1]
         return None
 
+    @staticmethod
+    def _holes(t):
+        if t is None:
+            return 1
+        return sum(Types._holes(x) for x in t[1:] if isinstance(x, (tuple, type(None)))) + sum(
+            Types._holes(y) for x in t[1:] if isinstance(x, list) for y in x
+        )
+
     def _bind(self, f, env, target, value):
         if isinstance(target, ast.Name):
-            if target.id not in env:
+            if target.id not in env or self._holes(env[target.id]):
                 t = self.expr_type(f, value, env)
-                if t:
+                if t and (target.id not in env or self._holes(t) < self._holes(env[target.id])):
                     env[target.id] = t
         elif isinstance(target, (ast.Tuple, ast.List)):
             t = self.expr_type(f, value, env)
@@ -450,7 +458,9 @@ class Types:
         if isinstance(e, (ast.List, ast.Set)):
             return ("list", self.expr_type(f, e.elts[0], env) if e.elts else None)
         if isinstance(e, (ast.ListComp, ast.SetComp, ast.GeneratorExp)):
-            return ("list", None)
+            return ("list", self.expr_type(f, e.elt, env))
+        if isinstance(e, ast.DictComp):
+            return ("dict", self.expr_type(f, e.key, env), self.expr_type(f, e.value, env))
         if isinstance(e, ast.IfExp):
             return self.expr_type(f, e.body, env) or self.expr_type(f, e.orelse, env)
         if isinstance(e, ast.BoolOp):
